@@ -34,43 +34,44 @@ Record robj := mkRO {
   ro_rx : bool;                (* receiver alive *)
   ro_cnt : nat;                (* Arc strong count *)
   ro_slots : list bool;        (* Arc handles *)
-  ro_live : bool               (* Track: value not yet dropped *)
+  ro_live : bool;              (* Track: value not yet dropped *)
+  ro_hist : list N             (* atomic: every value stored so far (weak mode) *)
 }.
 
-Record rstate := mkRS { rs_threads : list rthread; rs_objs : list robj; rs_decls : list decl }.
+Record rstate := mkRS { rs_threads : list rthread; rs_objs : list robj; rs_decls : list decl; rs_weak : bool }.
 
 Definition robj_of_decl (d : decl) : robj :=
   match d with
-  | DAtomic v => mkRO v None [] [] false false false [] false 0 [] false
-  | DChan => mkRO 0%N None [] [] false false false [] true 0 [] false
-  | DArc => mkRO 0%N None [] [] false false false [] false 1 (true :: repeat false 7) false
-  | DTrack => mkRO 0%N None [] [] false false false [] false 0 [] true
-  | _ => mkRO 0%N None [] [] false false false [] false 0 [] false
+  | DAtomic v => mkRO v None [] [] false false false [] false 0 [] false [v]
+  | DChan => mkRO 0%N None [] [] false false false [] true 0 [] false []
+  | DArc => mkRO 0%N None [] [] false false false [] false 1 (true :: repeat false 7) false []
+  | DTrack => mkRO 0%N None [] [] false false false [] false 0 [] true []
+  | _ => mkRO 0%N None [] [] false false false [] false 0 [] false []
   end.
 
-Definition rinit (p : prog) : rstate :=
+Definition rinit (weak : bool) (p : prog) : rstate :=
   mkRS (mapi (fun b code => mkRT (if Nat.eqb b 0 then RReady else RNotStarted) code 0 false [] [])
              (p_bodies p))
-       (map robj_of_decl (p_decls p)) (p_decls p).
+       (map robj_of_decl (p_decls p)) (p_decls p) weak.
 
-Definition ro_default : robj := mkRO 0%N None [] [] false false false [] false 0 [] false.
+Definition ro_default : robj := mkRO 0%N None [] [] false false false [] false 0 [] false [].
 Definition rt_default : rthread := mkRT RDone [] 0 false [] [].
 Definition robj_get (s : rstate) (i : nat) : robj := nth i (rs_objs s) ro_default.
 Definition rth_get (s : rstate) (i : nat) : rthread := nth i (rs_threads s) rt_default.
 
 Definition set_obj (s : rstate) (i : nat) (o : robj) : rstate :=
-  mkRS (rs_threads s) (list_set (rs_objs s) i o) (rs_decls s).
+  mkRS (rs_threads s) (list_set (rs_objs s) i o) (rs_decls s) (rs_weak s).
 Definition set_th (s : rstate) (i : nat) (t : rthread) : rstate :=
-  mkRS (list_set (rs_threads s) i t) (rs_objs s) (rs_decls s).
+  mkRS (list_set (rs_threads s) i t) (rs_objs s) (rs_decls s) (rs_weak s).
 
-Definition ro_with_val (o : robj) v := mkRO v (ro_owner o) (ro_readers o) (ro_waiters o) (ro_flag o) (ro_spur o) (ro_waiting o) (ro_q o) (ro_rx o) (ro_cnt o) (ro_slots o) (ro_live o).
-Definition ro_with_owner (o : robj) w := mkRO (ro_val o) w (ro_readers o) (ro_waiters o) (ro_flag o) (ro_spur o) (ro_waiting o) (ro_q o) (ro_rx o) (ro_cnt o) (ro_slots o) (ro_live o).
-Definition ro_with_readers (o : robj) r := mkRO (ro_val o) (ro_owner o) r (ro_waiters o) (ro_flag o) (ro_spur o) (ro_waiting o) (ro_q o) (ro_rx o) (ro_cnt o) (ro_slots o) (ro_live o).
-Definition ro_with_waiters (o : robj) w := mkRO (ro_val o) (ro_owner o) (ro_readers o) w (ro_flag o) (ro_spur o) (ro_waiting o) (ro_q o) (ro_rx o) (ro_cnt o) (ro_slots o) (ro_live o).
-Definition ro_with_notify (o : robj) f sp wt := mkRO (ro_val o) (ro_owner o) (ro_readers o) (ro_waiters o) f sp wt (ro_q o) (ro_rx o) (ro_cnt o) (ro_slots o) (ro_live o).
-Definition ro_with_q (o : robj) q rx := mkRO (ro_val o) (ro_owner o) (ro_readers o) (ro_waiters o) (ro_flag o) (ro_spur o) (ro_waiting o) q rx (ro_cnt o) (ro_slots o) (ro_live o).
-Definition ro_with_arc (o : robj) c sl := mkRO (ro_val o) (ro_owner o) (ro_readers o) (ro_waiters o) (ro_flag o) (ro_spur o) (ro_waiting o) (ro_q o) (ro_rx o) c sl (ro_live o).
-Definition ro_with_live (o : robj) b := mkRO (ro_val o) (ro_owner o) (ro_readers o) (ro_waiters o) (ro_flag o) (ro_spur o) (ro_waiting o) (ro_q o) (ro_rx o) (ro_cnt o) (ro_slots o) b.
+Definition ro_with_val (o : robj) v := mkRO v (ro_owner o) (ro_readers o) (ro_waiters o) (ro_flag o) (ro_spur o) (ro_waiting o) (ro_q o) (ro_rx o) (ro_cnt o) (ro_slots o) (ro_live o) (if existsb (N.eqb v) (ro_hist o) then ro_hist o else ro_hist o ++ [v]).
+Definition ro_with_owner (o : robj) w := mkRO (ro_val o) w (ro_readers o) (ro_waiters o) (ro_flag o) (ro_spur o) (ro_waiting o) (ro_q o) (ro_rx o) (ro_cnt o) (ro_slots o) (ro_live o) (ro_hist o).
+Definition ro_with_readers (o : robj) r := mkRO (ro_val o) (ro_owner o) r (ro_waiters o) (ro_flag o) (ro_spur o) (ro_waiting o) (ro_q o) (ro_rx o) (ro_cnt o) (ro_slots o) (ro_live o) (ro_hist o).
+Definition ro_with_waiters (o : robj) w := mkRO (ro_val o) (ro_owner o) (ro_readers o) w (ro_flag o) (ro_spur o) (ro_waiting o) (ro_q o) (ro_rx o) (ro_cnt o) (ro_slots o) (ro_live o) (ro_hist o).
+Definition ro_with_notify (o : robj) f sp wt := mkRO (ro_val o) (ro_owner o) (ro_readers o) (ro_waiters o) f sp wt (ro_q o) (ro_rx o) (ro_cnt o) (ro_slots o) (ro_live o) (ro_hist o).
+Definition ro_with_q (o : robj) q rx := mkRO (ro_val o) (ro_owner o) (ro_readers o) (ro_waiters o) (ro_flag o) (ro_spur o) (ro_waiting o) q rx (ro_cnt o) (ro_slots o) (ro_live o) (ro_hist o).
+Definition ro_with_arc (o : robj) c sl := mkRO (ro_val o) (ro_owner o) (ro_readers o) (ro_waiters o) (ro_flag o) (ro_spur o) (ro_waiting o) (ro_q o) (ro_rx o) c sl (ro_live o) (ro_hist o).
+Definition ro_with_live (o : robj) b := mkRO (ro_val o) (ro_owner o) (ro_readers o) (ro_waiters o) (ro_flag o) (ro_spur o) (ro_waiting o) (ro_q o) (ro_rx o) (ro_cnt o) (ro_slots o) b (ro_hist o).
 
 Definition rt_with_status (t : rthread) st := mkRT st (r_code t) (r_pc t) (r_token t) (r_guards t) (r_log t).
 Definition rt_with_token (t : rthread) b := mkRT (r_status t) (r_code t) (r_pc t) b (r_guards t) (r_log t).
@@ -123,22 +124,12 @@ Definition rstep (s : rstate) (tid : nat) : rres :=
   | RNotStarted | RDone => RDisabled
   | RWaitCv _ _ => RDisabled
   | RInNotify n =>
-      (* returns when the flag is set (consuming it) or, once per Notify,
-         spuriously (the flag is kept) *)
+      (* returns when the flag is set, consuming it *)
       let o := robj_get s n in
-      let consume :=
-        if ro_flag o
-        then [set_th (set_obj s n (ro_with_notify o false (ro_spur o) false)) tid
-                     (rt_advance (rt_with_status t RReady) RUnit)]
-        else [] in
-      let spur :=
-        if ro_spur o then []
-        else [set_th (set_obj s n (ro_with_notify o (ro_flag o) true false)) tid
-                     (rt_advance (rt_with_status t RReady) RUnit)] in
-      match consume ++ spur with
-      | [] => RDisabled
-      | l => RNext l
-      end
+      if ro_flag o
+      then RNext [set_th (set_obj s n (ro_with_notify o false (ro_spur o) false)) tid
+                         (rt_advance (rt_with_status t RReady) RUnit)]
+      else RDisabled
   | RReacq c m =>
       let o := robj_get s m in
       match ro_owner o with
@@ -163,19 +154,28 @@ Definition rstep (s : rstate) (tid : nat) : rres :=
               | RDone => done1 s tid t RUnit
               | _ => RDisabled
               end
-          | ILoad a _ => done1 s tid t (RVal (ro_val (robj_get s a)))
+          | ILoad a _ =>
+              if rs_weak s
+              then RNext (map (fun v => set_th s tid (rt_advance t (RVal v))) (ro_hist (robj_get s a)))
+              else done1 s tid t (RVal (ro_val (robj_get s a)))
           | IStore a v _ => done1 (set_obj s a (ro_with_val (robj_get s a) v)) tid t RUnit
           | IRmw a f v _ =>
               let o := robj_get s a in
-              done1 (set_obj s a (ro_with_val o (apply_rmw f (ro_val o) v))) tid t (RVal (ro_val o))
+              let reads := if rs_weak s then ro_hist o else [ro_val o] in
+              RNext (map (fun x => set_th (set_obj s a (ro_with_val o (apply_rmw f x v))) tid
+                                          (rt_advance t (RVal x))) reads)
           | ICas a ex nw _ _ =>
               let o := robj_get s a in
-              if N.eqb (ro_val o) ex
-              then done1 (set_obj s a (ro_with_val o nw)) tid t (ROk (ro_val o))
-              else done1 s tid t (RErr (ro_val o))
+              let reads := if rs_weak s then ro_hist o else [ro_val o] in
+              RNext (map (fun x =>
+                            if N.eqb x ex
+                            then set_th (set_obj s a (ro_with_val o nw)) tid (rt_advance t (ROk x))
+                            else set_th s tid (rt_advance t (RErr x))) reads)
           | IFetchUpdate a f v _ _ =>
               let o := robj_get s a in
-              done1 (set_obj s a (ro_with_val o (apply_rmw f (ro_val o) v))) tid t (ROk (ro_val o))
+              let reads := if rs_weak s then ro_hist o else [ro_val o] in
+              RNext (map (fun x => set_th (set_obj s a (ro_with_val o (apply_rmw f x v))) tid
+                                          (rt_advance t (ROk x))) reads)
           | IFence Relaxed => RPanic
           | IFence _ => done1 s tid t RUnit
           | ILock m =>
@@ -263,11 +263,19 @@ Definition rstep (s : rstate) (tid : nat) : rres :=
               done1 s tid t RUnit
           | INWait n =>
               (* entering marks the Notify as having a waiter; a second
-                 concurrent waiter is an API misuse and panics *)
+                 concurrent waiter is an API misuse and panics. The one spurious
+                 return that is modelled per Notify is a possibility, not a
+                 guarantee: it is decided here, on entry. *)
               let o := robj_get s n in
               if ro_waiting o then RPanic
-              else RNext [set_th (set_obj s n (ro_with_notify o (ro_flag o) (ro_spur o) true)) tid
-                                 (rt_with_status t (RInNotify n))]
+              else
+                let enter := set_th (set_obj s n (ro_with_notify o (ro_flag o) (ro_spur o) true)) tid
+                                    (rt_with_status t (RInNotify n)) in
+                let spur :=
+                  if ro_spur o then []
+                  else [set_th (set_obj s n (ro_with_notify o (ro_flag o) true false)) tid
+                               (rt_advance t RUnit)] in
+                RNext (enter :: spur)
           | INNotify n =>
               let o := robj_get s n in
               done1 (set_obj s n (ro_with_notify o true (ro_spur o) (ro_waiting o))) tid t RUnit
@@ -312,7 +320,9 @@ Definition rstep (s : rstate) (tid : nat) : rres :=
               (* a blocking read: every unsuccessful poll is recorded by the
                  implementation; R records only the successful one (the
                  comparison drops unsuccessful polls) *)
-              if N.eqb (ro_val (robj_get s a)) v then done1 s tid t (RVal v) else RDisabled
+              let o := robj_get s a in
+              if (if rs_weak s then existsb (N.eqb v) (ro_hist o) else N.eqb (ro_val o) v)
+              then done1 s tid t (RVal v) else RDisabled
           | IUnsyncLoad a => done1 s tid t (RVal (ro_val (robj_get s a)))
           | IWithMut a v =>
               let o := robj_get s a in
@@ -410,4 +420,4 @@ Fixpoint renum (fuel : nat) (s : rstate) : list routcome :=
       end
   end.
 
-Definition ref_outcomes (fuel : nat) (p : prog) : list routcome := renum fuel (rinit p).
+Definition ref_outcomes (weak : bool) (fuel : nat) (p : prog) : list routcome := renum fuel (rinit weak p).
